@@ -140,8 +140,116 @@ def gen_random(tier, seed):
     return cases
 
 
+def gen_interleave(tier, seed):
+    """A publish reaches the I/O thread as separate queue entries (method, header, one per body
+    frame).  Between two of them the I/O thread handles a frame from the server: whatever it has to
+    send in reaction must not land inside the publish's frames on that channel."""
+    import amqp
+    import machgen as mg
+    from machgen import Gen
+    rng = Rng(seed + 202)
+    cases = []
+    kinds = ["cancel-wait", "cancel-nowait", "cancel-other-channel", "heartbeat", "deliver", "ack"]
+    for kind in kinds:
+        for pos in (0, 1, 2):
+            for flush in (False, True):
+                g = Gen(rng, chmax=2, bound=8, via_stream=0.0)
+                h1 = g.open_channel(1); g.bind_opened(h1, 1)
+                h2 = g.open_channel(2); g.bind_opened(h2, 2)
+                g.consume(h1, "t1")
+                g.consume(h2, "t2")
+                g.op("wscript w:1000000"); g.op("write")
+                entries = [amqp.client_only_samples(1)["basic.publish"], amqp.header(1, 6), amqp.body(1, b"abc"), amqp.body(1, b"def")]
+                for i, e in enumerate(entries):
+                    g.op("send %s send %s" % (h1, hx(e))); g.op("ev 1")
+                    if i == pos:
+                        if flush:
+                            g.op("wscript w:1000000"); g.op("write")
+                        fr = {"cancel-wait": lambda: [mg.cancel(1, "t1", False)], "cancel-nowait": lambda: [mg.cancel(1, "t1", True)],
+                              "cancel-other-channel": lambda: [mg.cancel(2, "t2", False)], "heartbeat": lambda: [mg.heartbeat()],
+                              "deliver": lambda: [mg.deliver(1, "t1", 1, False, "", "k"), mg.header(1, 1), mg.body(1, b"z")],
+                              "ack": lambda: [mg.ack(1, 1, False)]}[kind]()
+                        g.feed(fr, direct=True)
+                g.op("wscript w:1000000"); g.op("write"); g.op("dump")
+                g.finish()
+                c = g.case("v-%s-%d%s" % (kind, pos, "f" if flush else ""))
+                c.meta["kind"] = kind
+                cases.append(c)
+    return cases
+
+
+def interleave_monitor(case, il, sl):
+    """On the wire (written + still buffered), per channel: a Basic.Publish method is followed, among
+    that channel's frames, by its content header and then body frames adding up to the announced
+    size - nothing else of that channel in between."""
+    import amqp, refmon
+    tr = refmon.Trace(case, il)
+    written = b""
+    last_out = b""
+    for o, g in tr.al:
+        for l in g:
+            if l.startswith("wrote ") and l != "wrote -":
+                written += bytes.fromhex(l.split()[1])
+            elif l.startswith("state ") and "out=" in l:
+                hx_ = l.split("out=")[1].split()[0]
+                last_out = bytes.fromhex(hx_) if hx_ != "-" else b""
+            elif l.startswith("PANIC") or l.startswith("ABORT"):
+                return ("crash: %s" % l, "c02-crash")
+    try:
+        frs, rest = amqp.split_frames(written + last_out)
+    except ValueError as e:
+        return ("outbound stream is not whole frames: %s" % e, "c02-wire")
+    per = {}
+    for ft, ch, p in frs:
+        per.setdefault(ch, []).append((ft, p))
+    # channels on which the server asked for a CancelOk (Basic.Cancel without nowait): a CancelOk inside
+    # a publish of such a channel is finding D16; any other frame inside a publish is not
+    asked = set()
+    for o in case.ops:
+        t = o.split()
+        if t[0] in ("frame", "feed") and len(t) > 1:
+            for tok in t[1:]:
+                hx_ = tok[2:] if tok.startswith("c:") else tok
+                try:
+                    b = bytes.fromhex(hx_)
+                except ValueError:
+                    continue
+                try:
+                    for ft, ch, p in amqp.split_frames(b)[0]:
+                        if ft == 1 and amqp.method_ids(p) == (60, 30) and p[-1] == 0:
+                            asked.add(ch)
+                except ValueError:
+                    pass
+    for ch, fl in per.items():
+        i = 0
+        while i < len(fl):
+            ft, p = fl[i]
+            if ft == 1 and amqp.method_ids(p) == (60, 40):
+                names = lambda k: "%s" % ("method %d.%d" % amqp.method_ids(fl[k][1]) if fl[k][0] == 1 else {2: "header", 3: "body", 8: "heartbeat"}.get(fl[k][0], "type %d" % fl[k][0]))
+                if i + 1 >= len(fl):
+                    break        # the rest has not been submitted / written yet
+                if fl[i + 1][0] != 2:
+                    sig = "d16-cancelok-inside-publish" if (fl[i + 1][0] == 1 and amqp.method_ids(fl[i + 1][1]) == (60, 31) and ch in asked) else "c02-interleaved"
+                    return ("channel %d: Basic.Publish is followed by `%s`, not by its content header: %s" % (ch, names(i + 1), [names(k) for k in range(i, min(len(fl), i + 5))]), sig)
+                size = int.from_bytes(fl[i + 1][1][4:12], "big")
+                got, j = 0, i + 2
+                while got < size and j < len(fl):
+                    if fl[j][0] != 3:
+                        sig = "d16-cancelok-inside-publish" if (fl[j][0] == 1 and amqp.method_ids(fl[j][1]) == (60, 31) and ch in asked) else "c02-interleaved"
+                        return ("channel %d: `%s` inside the body frames of a publish (%d of %d body bytes so far): %s" % (ch, names(j), got, size, [names(k) for k in range(i, min(len(fl), j + 2))]), sig)
+                    got += len(fl[j][1])
+                    j += 1
+                i = j
+            else:
+                i += 1
+    return None
+
+
 def suites(tier, seed):
+    import machgen as mg
     return [
+        Suite("publish-vs-server-frames", "machine", lambda: gen_interleave(tier, seed), monitor=interleave_monitor, nontrivial=lambda c, il: True, canon=mg.canon_nondet, candidate_ok=mg.candidate_ok, exhaustive=True,
+              rule="a publish handed over entry by entry (method, header, two body frames) on a channel that also consumes; after the 1st / 2nd / 3rd entry (with or without a flush) the I/O thread handles a server frame - Basic.Cancel for that channel's consumer with and without nowait, Basic.Cancel on another channel, a heartbeat, a delivery, an ack: on the wire the publish's frames stay contiguous among that channel's frames"),
         Suite("water-mark-boundaries", "machine", lambda: __import__("machgen").water_mark_cases(Rng(seed + 18)), monitor=__import__("props.c01", fromlist=["x"]).monitor, nontrivial=lambda c, il: True, canon=__import__("machgen").canon_nondet, exhaustive=True,
               rule="queue entries whose sizes add up to the high-water mark exactly / one byte less / one byte more (2, 3, 5 frames of 5-7 queued): one handler run takes the whole queue whatever is buffered; everything reaches the wire once, in order"),
         Suite("timers-with-backlog", "machine", lambda: [__import__("hbgen").session(Rng(seed * 11 + i), "t%d" % i, h_choices=(400, 300), stall_bias=True, steps=(6, 10)) for i in range(12 if tier == "quick" else 120)] + __import__("hbgen").tx_with_data_queued_cases(Rng(seed + 3)),
